@@ -33,6 +33,16 @@ fn main() {
         };
         match args[1].as_str() {
             "C01" => e1::run::run("C01", tier),
+            "C03" => e1::run::run("C03", tier),
+            "C06" => e1::run::run("C06", tier),
+            "C08" => e1::run::run("C08", tier),
+            "C09" => e1::run::run("C09", tier),
+            "C14" => e1::run::run("C14", tier),
+            "C15" => e1::run::run("C15", tier),
+            "C16" => e1::run::run("C16", tier),
+            "C17" => e1::run::run("C17", tier),
+            "C19" => e1::run::run("C19", tier),
+            "C20" => e1::run::run("C20", tier),
             "C12" => e4_topicgrid::run(tier),
             "C13" => e5_commitlog::run(tier),
             _ => usage(),
